@@ -380,8 +380,37 @@ def observe_async(ep, chunks, term):
     return obs
 
 
+def observe_async_calls(ep, chunks, term):
+    """one awaited expect_exact PER CHUNK (the non-final ones end in TIMEOUT), so that a character cut by a
+    read boundary is also cut by a call boundary on the asyncio path"""
+    c = ep.child
+    obs = []
+
+    async def main():
+        for i, ch in enumerate(chunks):
+            last = i == len(chunks) - 1
+            ep.feed(ch + (term if last else b''))
+            try:
+                idx = await c.expect_exact([TERM if c.encoding else TERM.encode('ascii'), pexpect.TIMEOUT], timeout=0.05, async_=True)
+                o = {'idx': idx, 'before': c.before, 'after': None if c.after is pexpect.TIMEOUT else c.after, 'buffer': c.buffer}
+            except Exception as e:
+                o = _exc(e)
+            o['log'] = list(ep.log.writes)
+            obs.append(o)
+            if 'exc' in o:
+                break
+        if c.async_pw_transport:
+            if ep.transport == 'pty':
+                os.kill(c.pid, signal.SIGKILL)
+                os.waitid(os.P_PID, c.pid, os.WEXITED | os.WNOWAIT)
+            c.async_pw_transport[1].close()
+            await asyncio.sleep(0)
+    asyncio.run(main())
+    return obs
+
+
 VARIANTS = [(t, v) for v in ('read', 'expect') for t in ('pty', 'fd', 'popen', 'socket')] + \
-           [(t, 'async') for t in ('pty', 'fd', 'socket')]
+           [(t, 'async') for t in ('pty', 'fd', 'socket')] + [(t, 'async_calls') for t in ('fd', 'socket')]
 
 
 def observe(case, factory=None):
@@ -398,6 +427,8 @@ def observe(case, factory=None):
             return observe_expect(ep, chunks, term, 0 if case['transport'] in ('pty', 'fd') else 0.004)
         if v == 'async':
             return observe_async(ep, chunks, term)
+        if v == 'async_calls':
+            return observe_async_calls(ep, chunks, term)
         raise ValueError(v)
     finally:
         ep.close()
@@ -426,13 +457,13 @@ def judge(case, obs):
         if 'exc' in o:
             if st['err'] and o['exc'] == 'UnicodeDecodeError':
                 return []               # strict policy met the invalid unit: reported, as the one-shot decoder does
-            if v == 'async' and st['err']:
+            if v in ('async', 'async_calls') and st['err']:
                 return []
             if o['exc'] == 'TypeError':
                 return bad('C07:type', i, 'exception', o, want_all)
             return bad('C07:split-character', i, 'exception although the stream is valid so far' if not st['err'] else 'wrong exception', o, want_all)
         if st['err']:
-            if v == 'async':
+            if v in ('async', 'async_calls'):
                 return []               # what the awaited call reports for an undecodable stream is not specified
             return bad('C07:error-policy', i, 'strict policy, invalid unit read: no error reported', o, 'UnicodeDecodeError')
         if v == 'read':
@@ -440,7 +471,7 @@ def judge(case, obs):
                 return bad('C07:type', i, 'read_nonblocking return type', type(o['ret']).__name__, T.__name__)
             if o['ret'] != want_out:
                 return bad('C07:split-character' if uni else 'C07:bytes-mode', i, 'text returned by read_nonblocking', o['ret'], want_out)
-        elif v == 'expect' or (v == 'async' and last):
+        elif v in ('expect', 'async_calls') or (v == 'async' and last):
             for k in ('before', 'buffer'):
                 if type(o[k]) is not T:
                     return bad('C07:type', i, k + ' type', type(o[k]).__name__, T.__name__)
@@ -563,13 +594,13 @@ def run(ctx):
                  3 if quick else 4, len(g.nodes), g.n_edges(), npaths, len(paths), len(base), len(skipped)))
     del g
     # (3) replay
-    budget = {'read': 8000, 'expect': 4000, 'async': 3000} if quick else {'read': 70000, 'expect': 35000, 'async': 25000}
+    budget = {'read': 8000, 'expect': 4000, 'async': 3000, 'async_calls': 1500} if quick else {'read': 70000, 'expect': 35000, 'async': 25000, 'async_calls': 12000}
     jobs = []
     for t, v in VARIANTS:
         n = budget[v] if t != 'pty' else budget[v] // 2
         pick = base if len(base) <= n else rng.sample(base, n)
         for c in pick:
-            if v == 'async' and c['steps'][-1]['err']:
+            if v in ('async', 'async_calls') and c['steps'][-1]['err']:
                 continue
             jobs.append(dict(c, transport=t, variant=v))
     t0 = time.time()
